@@ -74,11 +74,6 @@ Proof. induction 1; cbn; congruence. Qed.
 Lemma S_val a : tget S_t (b2n a) = b2n (sboxb a).
 Proof. apply S_b0. Qed.
 
-Lemma xtime_lt x : x < 256 -> xtime x < 256.
-Proof.
-  intro H. assert (Hs : forallb (fun x => xtime x <? 256) (Nrange 256) = true) by (vm_compute; reflexivity).
-  apply N.ltb_lt. exact (sweep _ _ Hs x H).
-Qed.
 Lemma xpow_lt n : xpow n < 256.
 Proof. induction n as [|n IH]; [reflexivity|]. cbn [xpow]. apply xtime_lt, IH. Qed.
 
